@@ -17,12 +17,14 @@ package proxy
 // goroutines under the race detector.
 
 import (
+	"errors"
 	"fmt"
 	"net"
 	"sort"
 	"strings"
 	"testing"
 
+	"github.com/robinbraemer/event"
 	"go.minekube.com/common/minecraft/component"
 	"go.minekube.com/gate/pkg/edition/java/proxy/zzverif/dualrun"
 	"go.minekube.com/gate/pkg/edition/java/proxy/zzverif/vrt"
@@ -40,16 +42,25 @@ type c12 struct {
 	e    *dualrun.Env
 	w    *g5World
 	sess []*g5Session // one per name, created up front (index = identity)
-	srv  []*registeredServer
+	// again[i] is a second client connection of identity i (same name and UUID): in kick-existing mode its
+	// login disconnects sess[i]
+	again  []*g5Session
+	reason component.Component // what DisconnectAll is called with
+	srv    []*registeredServer
 
 	// successive DISTINCT states of each observed collection (sched pass only)
 	hist map[string][]string
 }
 
 func newC12(e *dualrun.Env, kick bool) *c12 {
-	c := &c12{e: e, w: g5NewWorld(true, kick), hist: map[string][]string{}}
+	c := &c12{e: e, w: g5NewWorld(true, kick), hist: map[string][]string{}, reason: &component.Text{Content: "bye"}}
 	for i, n := range c12Names {
 		c.sess = append(c.sess, c.w.newSession(n, c12ID(byte(i+1)), false))
+	}
+	if kick {
+		for i, n := range c12Names[:2] {
+			c.again = append(c.again, c.w.newSession(n, c12ID(byte(i+1)), false))
+		}
 	}
 	return c
 }
@@ -64,13 +75,33 @@ func (c *c12) addServers(n int) {
 	}
 }
 
-func playerSetKey(l []*connectedPlayer) string {
+// label names a player in the recorded collection states: its username, with a prime for the second
+// connection of the same identity (again[i]) so that the two sessions of one player stay distinguishable.
+func (c *c12) label(p *connectedPlayer) string {
+	for _, s := range c.again {
+		if s.player() == p {
+			return p.Username() + "'"
+		}
+	}
+	return p.Username()
+}
+
+func (c *c12) playerSetKey(l []*connectedPlayer) string {
 	var n []string
 	for _, p := range l {
-		n = append(n, p.Username())
+		n = append(n, c.label(p))
 	}
 	sort.Strings(n)
 	return "{" + strings.Join(n, ",") + "}"
+}
+
+func hasMember(state, label string) bool {
+	for _, m := range strings.Split(strings.Trim(state, "{}"), ",") {
+		if m == label {
+			return true
+		}
+	}
+	return false
 }
 
 // observe records the current state of every collection (all threads are parked, or the caller is
@@ -91,7 +122,7 @@ func (c *c12) observe() {
 	for _, x := range p.playerIDs {
 		pl = append(pl, x)
 	}
-	rec("players", playerSetKey(pl))
+	rec("players", c.playerSetKey(pl))
 	var sn []string
 	for n := range p.servers {
 		sn = append(sn, n)
@@ -103,7 +134,7 @@ func (c *c12) observe() {
 		for _, x := range s.players.list {
 			l = append(l, x)
 		}
-		rec(fmt.Sprintf("srv%d", i+1), playerSetKey(l))
+		rec(fmt.Sprintf("srv%d", i+1), c.playerSetKey(l))
 	}
 }
 
@@ -155,7 +186,7 @@ func (c *c12) players() {
 		for _, p := range c.w.Proxy.Players() {
 			l = append(l, p.(*connectedPlayer))
 		}
-		return playerSetKey(l)
+		return c.playerSetKey(l)
 	})
 }
 
@@ -194,13 +225,13 @@ func (c *c12) srvRange(i int) {
 	c.read(fmt.Sprintf("srv%d.Players().Range", i+1), fmt.Sprintf("srv%d", i+1), func() string {
 		var l []*connectedPlayer
 		c.srv[i].Players().Range(func(p Player) bool { l = append(l, p.(*connectedPlayer)); return true })
-		return playerSetKey(l)
+		return c.playerSetKey(l)
 	})
 }
 
 func (c *c12) srvSlice(i int) {
 	c.read(fmt.Sprintf("PlayersToSlice(srv%d)", i+1), fmt.Sprintf("srv%d", i+1), func() string {
-		return playerSetKey(PlayersToSlice[*connectedPlayer](c.srv[i].Players()))
+		return c.playerSetKey(PlayersToSlice[*connectedPlayer](c.srv[i].Players()))
 	})
 }
 
@@ -208,16 +239,16 @@ func (c *c12) srvSlice(i int) {
 func (c *c12) disconnectAll() {
 	c.observe()
 	i0 := len(c.hist["players"]) - 1
-	c.w.Proxy.DisconnectAll(&component.Text{Content: "bye"})
+	c.w.Proxy.DisconnectAll(c.reason)
 	c.observe()
 	if c.e.Free() {
 		return
 	}
 	window := append([]string{}, c.hist["players"][i0:]...)
 	var open []string
-	for _, s := range c.sess {
+	for _, s := range append(append([]*g5Session{}, c.sess...), c.again...) {
 		if s.player() != nil && !s.closed() {
-			open = append(open, s.name)
+			open = append(open, c.label(s.player()))
 		}
 	}
 	c.e.AtEnd(func() {
@@ -229,7 +260,7 @@ func (c *c12) disconnectAll() {
 		for _, st := range window {
 			ok := true
 			for _, n := range open {
-				if strings.Contains(st, n) {
+				if hasMember(st, n) {
 					ok = false
 				}
 			}
@@ -271,9 +302,14 @@ func (c *c12) finish() {
 
 func c12Scenarios() []dualrun.Scenario {
 	type body = func(c *c12)
+	var setup func(c *c12) // optional: runs on the fresh fixture before servers/players are added (event subscribers)
 	mk := func(name string, quick, thorough, fq, ft int, kick bool, pre []int, nsrv int, threads map[string]body) dualrun.Scenario {
+		setup := setup
 		return dualrun.Scenario{Name: name, Quick: quick, Thorough: thorough, FreeQuick: fq, FreeThorough: ft, Body: func(e *dualrun.Env) {
 			c := newC12(e, kick)
+			if setup != nil {
+				setup(c)
+			}
 			c.addServers(nsrv)
 			for _, i := range pre {
 				c.sess[i].login()
@@ -299,6 +335,81 @@ func c12Scenarios() []dualrun.Scenario {
 		}}
 	}
 	freeOnly := func(s dualrun.Scenario) dualrun.Scenario { s.FreeOnly = true; return s }
+	withSetup := func(f func(c *c12), mkScenario func() dualrun.Scenario) dualrun.Scenario {
+		setup = f
+		defer func() { setup = nil }()
+		return mkScenario()
+	}
+	srv3 := NewServerInfo("srv3", &net.TCPAddr{IP: net.IPv4(10, 0, 0, 3), Port: 25565})
+	return append(c12BaseScenarios(mk, freeOnly), []dualrun.Scenario{
+		// ---- re-entrancy: the listing calls are made from event subscribers, i.e. from inside the very
+		// join/leave/register/unregister that is in progress ("from any goroutine at any time") ----
+		withSetup(func(c *c12) {
+			event.Subscribe(c.w.Events, 0, func(e *ServerRegisteredEvent) {
+				c.servers()
+				if c.w.Proxy.Server(e.Server().ServerInfo().Name()) == nil {
+					c.e.Fail("registered-server-not-found", "Server(%q) = nil inside the ServerRegisteredEvent for it", e.Server().ServerInfo().Name())
+				}
+			})
+			event.Subscribe(c.w.Events, 0, func(e *ServerUnregisteredEvent) {
+				c.servers()
+				_ = c.w.Proxy.Server(e.ServerInfo().Name())
+			})
+		}, func() dualrun.Scenario {
+			return mk("server-event-subscriber-lists-servers", 2, 3, 150, 2000, false, nil, 1, map[string]body{
+				"r": func(c *c12) { c.servers() },
+				"w": func(c *c12) {
+					if _, err := c.w.Proxy.Register(srv3); err != nil {
+						panic(err)
+					}
+					if !c.w.Proxy.Unregister(c.srv[0].ServerInfo()) {
+						panic("c12: Unregister(srv1) = false")
+					}
+				}})
+		}),
+		withSetup(func(c *c12) {
+			event.Subscribe(c.w.Events, 0, func(e *LoginEvent) {
+				c.players()
+				c.count("PlayerCount", "players", c.w.Proxy.PlayerCount)
+			})
+			event.Subscribe(c.w.Events, 0, func(e *DisconnectEvent) {
+				c.players()
+				c.count("PlayerCount", "players", c.w.Proxy.PlayerCount)
+			})
+		}, func() dualrun.Scenario {
+			return mk("player-event-subscribers-list-players/leave-vs-join", 2, 3, 150, 2000, false, []int{0, 1}, 0, map[string]body{
+				"w1": func(c *c12) { c.sess[0].disconnect() },
+				"w2": func(c *c12) { c.sess[2].login() }})
+		}),
+		withSetup(func(c *c12) {
+			event.Subscribe(c.w.Events, 0, func(e *DisconnectEvent) { c.players() })
+		}, func() dualrun.Scenario {
+			return mk("player-event-subscribers-list-players/DisconnectAll", 2, 2, 150, 2000, false, []int{0, 1}, 0, map[string]body{
+				"r": func(c *c12) { c.disconnectAll() }})
+		}),
+		// ---- a join that kicks the existing session of the same player (kick-existing mode): the listing
+		// sees the old session, nobody, or the new session - never a mix, and nothing deadlocks ----
+		mk("Players-vs-kicking-join", 2, 3, 150, 2000, true, []int{0, 1}, 0, map[string]body{
+			"r": func(c *c12) { c.players(); c.count("PlayerCount", "players", c.w.Proxy.PlayerCount) },
+			"w": func(c *c12) { c.again[0].login() }}),
+		mk("DisconnectAll-vs-kicking-join", 2, 3, 150, 2000, true, []int{0}, 0, map[string]body{
+			"r": func(c *c12) { c.disconnectAll() },
+			"w": func(c *c12) { c.again[0].login() }}),
+		// ---- input shapes of disconnect-everyone: no reason given (Shutdown(nil) does that), and a player
+		// whose connection is already broken (the disconnect packet cannot be written) ----
+		mk("DisconnectAll-nil-reason-broken-conns", 2, 3, 150, 2000, false, []int{0, 1, 2}, 0, map[string]body{
+			"r": func(c *c12) {
+				for _, i := range []int{0, 1, 2} {
+					c.sess[i].base.failWrites(errors.New("broken pipe"))
+				}
+				c.reason = nil
+				c.disconnectAll()
+			}}),
+	}...)
+}
+
+func c12BaseScenarios(mk func(name string, quick, thorough, fq, ft int, kick bool, pre []int, nsrv int, threads map[string]func(c *c12)) dualrun.Scenario, freeOnly func(dualrun.Scenario) dualrun.Scenario) []dualrun.Scenario {
+	type body = func(c *c12)
 	return []dualrun.Scenario{
 		mk("Players-vs-join", 2, 3, 150, 2000, false, []int{0, 1}, 0, map[string]body{
 			"r": func(c *c12) { c.players() },
